@@ -333,18 +333,12 @@ fn c07_conn_step_timers_sent() {
     core::mem::forget(c);
 }
 
-/// `process` dispatches each payload-free input to the handler checked above.
-//@ id=C07 tier=quick cap=600
-//@ fn: fsm::Connection::process
-//@ bound: one step from ANY Connection state x 5 payload-free inputs (Input::MessageReceived moves a bgp::Message whose drop glue CBMC cannot finish: messages are fed through on_message/on_open directly); unwind 8
-//@ desc: process() dispatches each input to the handler checked by the step harnesses
-#[kani::proof]
-#[kani::unwind(8)]
-fn c07_conn_process_dispatch() {
+/// `process` dispatches each payload-free input to the handler checked above.  The input
+/// variant is concrete per instance: with a symbolic variant CBMC also explores the
+/// MessageReceived arm and the drop glue of an arbitrary bgp::Message.
+fn dispatch_case(k: u8) {
     let mut c = any_connection();
     let pre = c.state;
-    let k: u8 = kani::any();
-    kani::assume(k < 5);
     let input = match k {
         0 => Input::KeepaliveTimerExpired,
         1 => Input::HoldTimerExpired,
@@ -363,9 +357,38 @@ fn c07_conn_process_dispatch() {
         2 => assert!(s.session_down == 1 && s.down_io),
         _ => assert!(s.session_down == 1 && s.down_admin),
     }
-    kani::cover!(k == 1 && pre == State::OpenConfirm);
     core::mem::forget(out);
     core::mem::forget(c);
+}
+
+//@ id=C07 tier=quick cap=600
+//@ fn: fsm::Connection::process
+//@ bound: one step from ANY Connection state x HoldTimerExpired / Disconnected (concrete variant per call); unwind 8
+//@ desc: process() dispatches the input to the handler checked by the step harnesses
+#[kani::proof]
+#[kani::unwind(8)]
+fn c07_conn_process_dispatch_down() {
+    if kani::any() {
+        dispatch_case(1);
+    } else {
+        dispatch_case(2);
+    }
+}
+
+//@ id=C07 tier=thorough cap=600
+//@ fn: fsm::Connection::process
+//@ bound: one step from ANY Connection state x KeepaliveTimerExpired / AdminShutdown / UpdateSent; unwind 8
+//@ desc: process() dispatches the input to the handler checked by the step harnesses
+#[kani::proof]
+#[kani::unwind(8)]
+fn c07_conn_process_dispatch_other() {
+    let k: u8 = kani::any();
+    kani::assume(k < 3);
+    match k {
+        0 => dispatch_case(0),
+        1 => dispatch_case(3),
+        _ => dispatch_case(4),
+    }
 }
 
 /// vacuity twin: must FAIL
